@@ -86,7 +86,7 @@ def gen_case(rng: random.Random, tier: str) -> dict:
     if isinstance(rsel, list) and rng.random() < 0.2 and g["ext"]:
         rsel = rsel + [rng.choice(g["ext"])]  # a plain INPUT name in the selection: rejected, or at least never returned
     rsel_has_input = isinstance(rsel, list) and any(n_ in g["ext"] for n_ in rsel)
-    rsel_tuple = rng.choice([True, "set", "frozenset"] + ([] if rsel_has_input else ["generator"])) if (isinstance(rsel, list) and rng.random() < 0.4) else False  # the selection is given as a tuple / set / frozenset instead of a list
+    rsel_tuple = rng.choice([True, "set", "frozenset", "generator", "generator"]) if (isinstance(rsel, list) and rng.random() < 0.4) else False  # the selection is given as a tuple / set / frozenset instead of a list
     fns = gen.fn_nodes(g)
     fault = None
     if fns and rng.random() < 0.3:
@@ -397,16 +397,18 @@ def run_case(doc: dict) -> dict:
                     if names:
                         mname = names[0]
                         mvals = dict(w["values"])
-                        mvals[mname] = [mvals[mname]]
+                        # (two equal items when the selection is a one-shot iterator: it has to serve every item)
+                        mvals[mname] = [mvals[mname]] * (2 if doc.get("rsel_tuple") == "generator" else 1)
                         wm = run_world(gs, mvals, mode=mode, cfg=doc["cfg"], run_kwargs=kw_now(map_over=mname), op="map", cache=cache, derive=derive, warm_values=wref["values"])
                         rts.append(wm["rt"])
                         res["runs"] += 1
                         om = wm["out"]
-                        if om["status"] == "list" and len(om["items"]) == 1:
-                            it = om["items"][0]
+                        if om["status"] == "list" and len(om["items"]) == len(mvals[mname]):
                             res["stats"]["probe_map_of_one_item"] = res["stats"].get("probe_map_of_one_item", 0) + 1
-                            if it["status"] != "completed" or canon(it["values"]) != canon(vals):
-                                viol.append((f"{tag}:map_item_result_differs_from_run_result", {"map_over": mname, "item": [it["status"], it["values"], it["error"]], "run": vals, "selection": eff}))
+                            for ii, it in enumerate(om["items"]):
+                                if it["status"] != "completed" or canon(it["values"]) != canon(vals):
+                                    viol.append((f"{tag}:map_item_result_differs_from_run_result", {"map_over": mname, "item_index": ii, "item": [it["status"], it["values"], it["error"]], "run": vals, "selection": eff, "selection_given_as": doc.get("rsel_tuple")}))
+                                    break
                         elif not (om["status"] == "raised" and om["error"] and om["error"][0] in ("ValueError", "GraphConfigError", "MissingInputError", "IncompatibleRunnerError")):
                             viol.append((f"{tag}:map_of_one_item_unexpected_outcome", {"status": om["status"], "error": om["error"]}))
                 if eff is not None and any(k not in (eff or []) for k in produced_all):
